@@ -869,10 +869,10 @@ fn run(ctx: &Ctx, env: &Env) -> Stats {
         part.finish()
     }));
     jobs.push(Box::new(move |ctx: &Ctx| {
-        let mut part = Part::new(ctx, "flush_retry", "sink flush fails 0..=3 times with Interrupted, the caller retries: every word size, both endiannesses, word level and bit level, pending bits 0..=W+1", true);
+        let mut part = Part::new(ctx, "flush_retry", "sink flush fails 0..=6 times with Interrupted, the caller retries: every word size, both endiannesses, word level and bit level, pending bits 0..=W+1", true);
         let f = |c: &Case| check_case(c, env);
         for w in Wd::WRITER {
-            for faults in 0..=3u8 {
+            for faults in 0..=6u8 {
                 for e in En::ALL {
                     for pending in 0..=(w.bits().min(64) + 1) {
                         let mut fields = vec![(0x5A5A_A5A5_1234_5678u64, (pending.min(64)) as u8)];
@@ -985,7 +985,7 @@ pub fn gen_case(s: &mut Src) -> Case {
             let fields = (0..k).map(|_| (s.u64(), if bit { crate::gen::gen_width(s, w.bits()) } else { 0 })).collect();
             let k2 = s.below(4);
             let more = (0..k2).map(|_| (s.u64(), if bit { crate::gen::gen_width(s, w.bits()) } else { 0 })).collect();
-            Case::FlushRetry { e: crate::gen::gen_en(s), w, bit, fields, faults: s.below(4) as u8, more }
+            Case::FlushRetry { e: crate::gen::gen_en(s), w, bit, fields, faults: s.below(8) as u8, more }
         }
         5 => Case::SeekAfterFault { w, n_words: s.range(1, 6) as u8, seed: s.u16() as u64, schedule: gen_schedule(s, w.bytes(), true), reads: s.range(1, 7) as u8, k: s.below(7) as u8 },
         0 => Case::WriteWords { w, n_words: s.range(1, 6) as u8, seed: s.u16() as u64, schedule: gen_schedule(s, w.bytes(), true) },
